@@ -285,6 +285,77 @@ theorem dataclass_decode_eq_partial (splice : V → Option V) (isNone : V → Bo
   rw [this]
   exact compiled_decode_eq splice isNone unpackAll d data hwf hd hser
 
+/-! ## inheritance between dataclass payloads and the order of first instantiation -/
+
+/-- class-level data does not depend on the conversion state once the class itself has been instantiated: for every
+    chain, every sequence of instantiations (parents first, children first, interleaved, repeated) that contains class
+    `k`, `format_list`/`names` of class `k` are those of its flattened field list (parent fields ++ own fields). -/
+theorem hier_class_def_after_instance (c : DChain V) (evs : List Nat) (k : Nat) (h : k ∈ evs) :
+    c.classData (runInst evs) k = c.classData [k] k := by
+  unfold DChain.classData
+  rw [nearest_self _ k ((mem_runInst evs k).mpr h), nearest_self [k] k (by simp)]
+
+/-- instances: whatever was converted before, constructing class `k` behaves like the plain interpreted definition
+    of the flattened field list, and so do its pack list and `from_unpack_list` (conversion state has no influence). -/
+theorem hier_instance_eq (splice : V → Option V) (isNone : V → Bool) (c : DChain V) (conv : List Nat) (k : Nat)
+    (d : PDef V) (h : (c.ddef k).toPDef = .ok d) (hwf : d.WF) (hd : d.DefaultsOK splice) :
+    (∀ args kw, (keys kw).Nodup →
+        (c.hierInit splice conv k args kw).toOption = (interpInit d args kw).toOption) ∧
+    (∀ attrs, dataclassPack splice (c.ddef k) attrs = interpPack d attrs) ∧
+    (∀ args, args.length = d.names.length → (∀ a ∈ args, isNone a = false) →
+        (dataclassUnpack splice isNone (c.ddef k) args).toOption = (interpUnpack d args).toOption) := by
+  obtain ⟨h1, h2, h3⟩ := dataclass_eq splice isNone (c.ddef k) d h hwf hd
+  refine ⟨?_, h2, h3⟩
+  intro args kw hkw
+  unfold DChain.hierInit
+  rw [nearest_self (k :: conv) k (by simp)]
+  exact h1 args kw hkw
+
+/-- decoding is where the state matters, and exactly so: a class that has been instantiated decodes like its plain
+    flattened definition in every state; a class that has NOT been instantiated decodes as its nearest converted
+    ancestor (a parent-shaped object), or as in `dataclass_decode_first_fails` if there is none. -/
+theorem hier_decode_state (splice : V → Option V) (isNone : V → Bool)
+    (unpackAll : List Fmt → Bytes → Option (List V)) (c : DChain V) (conv : List Nat) (k : Nat) (data : Bytes) :
+    (k ∈ conv → ∀ d, (c.ddef k).toPDef = .ok d → d.WF → d.DefaultsOK splice →
+        (∀ vs, unpackAll d.fmts data = some vs → vs.length = totalSlots d.fmts ∧ ∀ a ∈ vs, isNone a = false) →
+        (c.hierDecode unpackAll splice isNone conv k data).toOption
+          = (decodeWith unpackAll d.fmts (interpUnpack d) data).toOption) ∧
+    (∀ j, nearest conv k = some j →
+        c.hierDecode unpackAll splice isNone conv k data = c.hierDecode unpackAll splice isNone [j] j data) ∧
+    (nearest conv k = none →
+        c.hierDecode unpackAll splice isNone conv k data = dataclassDecodeFirst unpackAll splice (c.ddef k) data) := by
+  refine ⟨?_, ?_, ?_⟩
+  · intro hk d hd hwf hdo hser
+    unfold DChain.hierDecode
+    rw [nearest_self conv k hk]
+    simp only [hd]
+    exact dataclass_decode_eq_partial splice isNone unpackAll (c.ddef k) d data hd hwf hdo hser
+  · intro j hj
+    unfold DChain.hierDecode
+    rw [hj, nearest_self [j] j (by simp)]
+  · intro hn
+    unfold DChain.hierDecode
+    rw [hn]
+
+/-- non-vacuity: header/body chain, parent instantiated first, then the child -/
+example :
+    let c : DChain Nat := { levels := [[("ident", .int, none), ("flag", .bool, some 1)],
+                                       [("body", .bytes, some 7), ("text", .str, some 8)]] }
+    (c.classData (runInst [0, 1]) 1).toOption
+        = some ([.str "q", .str "?", .str "varlenH", .str "varlenHutf8"], ["ident", "flag", "body", "text"])
+    ∧ (c.classData (runInst [0]) 1).toOption = some ([.str "q", .str "?"], ["ident", "flag"])
+    ∧ (c.hierInit some (runInst [0]) 1 [5] []).toOption = some [("text", 8), ("body", 7), ("flag", 1), ("ident", 5)] := by
+  decide
+
+/-- an UNCOMPILED subclass of a vp_compile'd class that extends the field list inherits the parent's generated
+    methods: the full statement (it behaves like the plain definition of the flattened field list) fails; witness -/
+theorem uncompiled_subclass_of_compiled_differs :
+    let parent : PDef Nat := { fmts := [.str "I", .str "H"], names := ["a", "b"] }
+    let child : PDef Nat := { fmts := [.str "I", .str "H", .str "B"], names := ["a", "b", "c"] }
+    (hybridInit some parent [1, 2, 3] []).toOption = none
+    ∧ (interpInit child [1, 2, 3] []).toOption = some [("c", 3), ("b", 2), ("a", 1)] := by
+  decide
+
 /-! ## the shipped definitions (regenerated from the live package on every run) -/
 
 /-- every shipped VariablePayload definition is well formed: distinct names, one name per slot, defaults ordered -/
